@@ -122,6 +122,18 @@ pub fn check_sort(g: &Grammar, text: &str) -> Result<Vec<(&'static str, String)>
             }
         }
     }
+    // (2b) the MODULEs of the PROJECT are elements of a kind as well: ascending by name in the file and in the list
+    {
+        use a2lfile::A2lObjectName;
+        let in_file: Vec<String> = t1.split("/begin MODULE").skip(1).filter_map(|r| r.split_whitespace().next().map(|x| x.to_string())).collect();
+        let in_list: Vec<String> = f.project.module.iter().map(|m| m.get_name().to_string()).collect();
+        if in_file.windows(2).any(|w| w[0] > w[1]) {
+            out.push(("not-ascending", format!("the MODULEs are written in the order {in_file:?}")));
+        }
+        if in_list.windows(2).any(|w| w[0] > w[1]) {
+            out.push(("not-ascending", format!("the MODULE list is in the order {in_list:?}")));
+        }
+    }
     // (3) reload: equal model with equal list order
     match load(&t1, None, false) {
         Loaded::Ok(f2, _) => {
@@ -318,6 +330,77 @@ fn build(g: &Grammar, thorough: bool) -> Vec<Case14> {
                 out.push(Case14 { label: format!("{n} x {kind}, {pn}"), class: format!("long-list:{pn}"), text: file_text(g, "m", &elems) });
             }
         }
+    }
+    // named lists inside elements (sort() leaves them alone; whatever it does, the file has to reload to the sorted model)
+    {
+        let elems = vec![
+            e("MEMORY_SEGMENT", "zz", "c1"),
+            e("MEMORY_SEGMENT", "aa", "c1"),
+            e("MEMORY_SEGMENT", "mm", "c1"),
+            e("TYPEDEF_STRUCTURE", "ts", "c1").kid(ks("STRUCTURE_COMPONENT", &[("name", "zc")])).kid(ks("STRUCTURE_COMPONENT", &[("name", "ac")])).kid(ks("STRUCTURE_COMPONENT", &[("name", "mc")])),
+            e("INSTANCE", "in", "c1").set("type_ref", "ts").kid(ks("OVERWRITE", &[("name", "zc"), ("axis_number", "1")])).kid(ks("OVERWRITE", &[("name", "ac"), ("axis_number", "1")])),
+            e("MEASUREMENT", "zm", "c1"),
+            e("MEASUREMENT", "am", "c1"),
+        ];
+        out.push(Case14 { label: "named lists inside MOD_PAR, TYPEDEF_STRUCTURE and INSTANCE in descending order".into(), class: "nested-lists".into(), text: file_text(g, "m", &elems) });
+    }
+    // modules with and without an A2ML block, in every order of two and three (the MODULE list is ordered by name only)
+    for order in [vec![("ma", false), ("mb", true)], vec![("mb", true), ("ma", false)], vec![("ma", true), ("mb", false)], vec![("mb", false), ("ma", true)], vec![("mc", false), ("mb", true), ("ma", false)], vec![("ma", true), ("mb", true)]] {
+        let mut gen = Gen::new(g);
+        let (mut doc, _) = gen.carrier_v("PROJECT", 5, 0);
+        let p = doc.root.child_mut("PROJECT").unwrap();
+        p.children.clear();
+        for (mn, with_a2ml) in &order {
+            gen.reset();
+            let mut m = gen.min_node("MODULE", 5, 0);
+            m.params[0].text = mn.to_string();
+            m.children.push(build_elem(&mut gen, g, &e("MEASUREMENT", "zz", "c1")));
+            if *with_a2ml {
+                gen.reset();
+                let mut a = gen.min_node("A2ML", 5, 0);
+                a.raw = Some("block \"IF_DATA\" struct { uint; };".to_string());
+                m.children.push(a);
+            }
+            m.children.push(build_elem(&mut gen, g, &e("MEASUREMENT", "aa", "c1")));
+            p.children.push(m);
+        }
+        out.push(Case14 { label: format!("modules with / without A2ML {order:?}"), class: "modules-a2ml".into(), text: doc.text() });
+    }
+    // IF_DATA and the A2ML block that describes it in every order inside one module and across two modules
+    for (label, mods) in [
+        ("IF_DATA behind its A2ML block", vec![vec!["A", "I", "M"]]),
+        ("IF_DATA in front of its A2ML block", vec![vec!["I", "A", "M"]]),
+        ("IF_DATA in the module behind the module with the A2ML block", vec![vec!["A", "M"], vec!["I", "M"]]),
+        ("IF_DATA in the module in front of the module with the A2ML block", vec![vec!["I", "M"], vec!["A", "M"]]),
+    ] {
+        let mut gen = Gen::new(g);
+        let (mut doc, _) = gen.carrier_v("PROJECT", 5, 0);
+        let p = doc.root.child_mut("PROJECT").unwrap();
+        p.children.clear();
+        for (mi, kids) in mods.iter().enumerate() {
+            gen.reset();
+            let mut m = gen.min_node("MODULE", 5, 0);
+            m.params[0].text = format!("m{mi}");
+            for k in kids {
+                match *k {
+                    "A" => {
+                        gen.reset();
+                        let mut a = gen.min_node("A2ML", 5, 0);
+                        a.raw = Some("block \"IF_DATA\" taggedunion { \"ZZ\" uint; };".to_string());
+                        m.children.push(a);
+                    }
+                    "I" => {
+                        gen.reset();
+                        let mut i = gen.min_node("IF_DATA", 5, 0);
+                        i.raw = Some("ZZ 1".to_string());
+                        m.children.push(i);
+                    }
+                    _ => m.children.push(build_elem(&mut gen, g, &e("MEASUREMENT", "zz", "c1"))),
+                }
+            }
+            p.children.push(m);
+        }
+        out.push(Case14 { label: label.to_string(), class: format!("ifdata-a2ml-order:{}", label.replace(' ', "-")), text: doc.text() });
     }
     // the rich documents of the corpus and HEADER / version elements
     for d in crate::corpus::rich_docs(g) {
